@@ -4,6 +4,7 @@ import (
 	"bytes"
 	"fmt"
 	"math/big"
+	"runtime"
 	"sort"
 	"strings"
 	"testing"
@@ -68,7 +69,7 @@ func genQty(rt *rapid.T, kind string) *big.Int {
 			}
 			return v
 		case "int64":
-			return big.NewInt(rapid.Int64Range(-(1 << 60), 1<<60).Draw(rt, "qtyI"))
+			return big.NewInt(rapid.Int64Range(-(1<<60), 1<<60).Draw(rt, "qtyI"))
 		default:
 			return new(big.Int).SetUint64(rapid.Uint64Range(0, 1<<61).Draw(rt, "qtyU"))
 		}
@@ -547,6 +548,9 @@ func runMultiAsset[T maNum](rt *rapid.T, rec *evi.Recorder, kind string) {
 		safely := func(key, what string, f func()) {
 			defer func() {
 				if r := recover(); r != nil {
+					if _, isRuntime := r.(runtime.Error); !isRuntime {
+						panic(r) // a failure already reported through rapid, not a library panic
+					}
 					fail(key+":panic", fmt.Sprintf("%s panicked: %v", what, r))
 				}
 			}()
@@ -576,6 +580,41 @@ func runMultiAsset[T maNum](rt *rapid.T, rec *evi.Recorder, kind string) {
 				}
 			})
 		}
+		// decoding INTO a value that already holds something: the result is the decoded
+		// value, nothing of the receiver's earlier content survives
+		safely("decode-into-used-receiver", "UnmarshalCBOR(encode(a)) into a value holding b", func() {
+			for i, recv := range []*common.MultiAsset[T]{mk(b), mk(c)} {
+				if i == 1 {
+					// a receiver that itself came from a decode and an Add
+					if encC, err := cbor.Encode(mk(c)); err == nil {
+						recv = new(common.MultiAsset[T])
+						if _, err := cbor.Decode(encC, recv); err != nil {
+							continue
+						}
+						recv.Add(mk(b))
+					}
+				}
+				if _, err := cbor.Decode(enc1, recv); err != nil {
+					fail("decode-into-used-receiver", fmt.Sprintf("decoding %x into a used receiver fails: %v", enc1, err))
+					continue
+				}
+				or, z := observe(recv)
+				if !or.equal(ra) || !recv.Compare(A) || !A.Compare(recv) {
+					fail("decode-into-used-receiver", fmt.Sprintf("decoding encode(a)=%x into a value that already held other assets reads %s, the encoded value is %s", enc1, or, ra))
+				}
+				if len(z) > 0 {
+					fail("decoded-exposes-zero", fmt.Sprintf("decode into a used receiver exposes zero entries %v", z))
+				}
+				// same bytes as a fresh receiver re-encodes to (zeros pruned either way)
+				fresh := new(common.MultiAsset[T])
+				if _, err := cbor.Decode(enc1, fresh); err == nil {
+					want, _ := cbor.Encode(fresh)
+					if re, err := cbor.Encode(recv); err != nil || !bytes.Equal(re, want) {
+						fail("decode-into-used-receiver", fmt.Sprintf("re-encoding after decoding %x into a used receiver gives %x (err %v), after decoding into a fresh one %x", enc1, re, err, want))
+					}
+				}
+			}
+		})
 		for i, d := range decodedCopies() {
 			src := []string{"decode(encode(a))", "decode(harness encoding of a)"}[i]
 			safely("decoded-operand-add", "b.Add("+src+")", func() {
@@ -600,7 +639,7 @@ func runMultiAsset[T maNum](rt *rapid.T, rec *evi.Recorder, kind string) {
 
 func TestC06(t *testing.T) {
 	rec := evi.New(t, "C06", evi.Exploration,
-		"triples (a,b,c) of multi-asset values over a shared universe of 4 policies x 7 asset names (empty, 1-byte, 24-byte, 32-byte names) so operands collide; quantities from {0,+-1,+-5,+-2^63,2^63-1,2^64-1,+-2^64,+-2^70} or uniform up to 80 bits for *big.Int, in-range values for int64/uint64; b is frequently a reordered copy of a padded with explicit zero entries and c frequently -b; values are built through NewMultiAsset (two insertion orders) and by decoding the harness's own unsorted / indefinite-length / bignum-tagged CBOR. Oracle = reference map (policy,name)->big integer with zeros dropped: Compare vs reference equality, reflexive/symmetric/transitive, Add commutative/associative/identity/no operand mutation/equal to per-asset integer addition, accessors, deterministic canonical encoding (strictly ascending bytewise keys, minimal heads) independent of insertion order, decode(encode(x)) equal to x with no zero entry exposed, and decoded values (also those where pruning left nothing) used as receiver and as operand of Add agree with the reference. non-trivial = operands share a key or a spec contains an explicit zero; distinct by the three specs")
+		"triples (a,b,c) of multi-asset values over a shared universe of 4 policies x 7 asset names (empty, 1-byte, 24-byte, 32-byte names) so operands collide; quantities from {0,+-1,+-5,+-2^63,2^63-1,2^64-1,+-2^64,+-2^70} or uniform up to 80 bits for *big.Int, in-range values for int64/uint64; b is frequently a reordered copy of a padded with explicit zero entries and c frequently -b; values are built through NewMultiAsset (two insertion orders) and by decoding the harness's own unsorted / indefinite-length / bignum-tagged CBOR. Oracle = reference map (policy,name)->big integer with zeros dropped: Compare vs reference equality, reflexive/symmetric/transitive, Add commutative/associative/identity/no operand mutation/equal to per-asset integer addition, accessors, deterministic canonical encoding (strictly ascending bytewise keys, minimal heads) independent of insertion order, decode(encode(x)) equal to x with no zero entry exposed, and decoded values (also those where pruning left nothing) used as receiver and as operand of Add agree with the reference; decoding into a value that already holds other assets yields exactly the decoded value. non-trivial = operands share a key or a spec contains an explicit zero; distinct by the three specs")
 	defer rec.Finish()
 	rec.Assume("for the int64/uint64 instantiations sums stay inside +-2^62 (the ledger only instantiates *big.Int; machine-type overflow is outside the statement)")
 	rec.Check(func(rt *rapid.T) {
